@@ -206,6 +206,15 @@ def loopSendViolations (t : List Access) : List Access :=
     ((carrierFields.contains (a.strct, a.field) && (a.method == "Send" || a.method == "SendMsg")) ||
      sendingCallbacks.contains (a.strct, a.field)))
 
+/-! ### waiting for other goroutines -/
+
+/-- wait groups: `Wait` blocks until other goroutines are done; it must not be called with a mutex held
+    that those goroutines (or anything they wait for) need -/
+def waitGroups : List (String × String) := [("ReverseTunnelServer", "wg")]
+
+def lockedWaitViolations (t : List Access) : List Access :=
+  t.filter (fun a => waitGroups.contains (a.strct, a.field) && a.how == "call" && a.method == "Wait" && !a.held.isEmpty)
+
 /-! ### atomic operations behind the actions of the L-atomic flow-control model -/
 
 /-- the atomic operations a function performs on a field, in source order, without repetitions -/
